@@ -592,7 +592,7 @@ func r7WriterTypestate(c *an.Ctx, rule string) {
 			c.Bad(rule, key, at, bad+" (nil pointer dereference in ProcessLogging; WAF.AuditLogWriter hands the writer out even when Init reported an error)")
 		}
 	}
-	c.MinCount(rule, "audit-log writers with an initialised-sentinel field", n, 2)
+	c.MinCount(rule, "audit-log writers with an initialised-sentinel field", n, 1) // the tinygo build has the serial writer only
 }
 
 func fieldOfStruct(st *types.Struct, fv *types.Var) bool {
@@ -858,4 +858,70 @@ func r7ExactMatchOneNode(c *an.Ctx, rule string) {
 		c.Check(b1 != nil && b1 == b2, rule, key, r.Pos(), "string(node.Rune), node.Flags&FoldCase != 0 over the same node", "the literal ("+tempName.ReplaceAllString(an.Expr(r.Results[0]), "")+") and its case mode ("+tempName.ReplaceAllString(an.Expr(r.Results[1]), "")+") are not read from one syntax node: a pattern whose literal is split where the fold flag changes (^[Tt]rue$, ^(?i:content)-Type$) is compared case-insensitively as a whole when SecRxPreFilter is On, so the rule matches values it does not match with the prefilter Off")
 	})
 	c.MinCount(rule, "non-trivial returns of extractExactMatch", n, 1)
+}
+
+// r7BodyBufferFieldsReset (C05.R4): every field of BodyBuffer that anything other than its
+// constructor writes is state of the body it buffers, and is written again on every path of
+// Reset (the buffer object is recycled with its transaction).  A new piece of state (a "limit
+// reached" latch) that Reset does not know about follows the pooled object into the next
+// transaction.
+func r7BodyBufferFieldsReset(c *an.Ctx, rule string) {
+	reset := c.Fn(rule, "internal/corazawaf.(*BodyBuffer).Reset")
+	t := c.P.LookupType(pkgWAF, "BodyBuffer")
+	if reset == nil || t == nil {
+		return
+	}
+	st, ok := t.Underlying().(*types.Struct)
+	if !ok {
+		return
+	}
+	ctor := c.P.Func("internal/corazawaf.NewBodyBuffer")
+	n := 0
+	for i := 0; i < st.NumFields(); i++ {
+		fv := st.Field(i)
+		var writers []string
+		for _, f := range c.P.ModFuncs {
+			if f == ctor || f == reset {
+				continue
+			}
+			live := an.LiveBlocks(f)
+			for _, b := range f.Blocks {
+				if !live[b] {
+					continue // compiled out in this configuration (HasAccessToFS == false)
+				}
+				for _, in := range b.Instrs {
+					if s, ok := in.(*ssa.Store); ok && an.FieldVar(s.Addr) == fv {
+						writers = append(writers, an.RelName(f))
+					}
+				}
+			}
+		}
+		if len(writers) == 0 {
+			continue // configuration, or state kept inside an object with its own Reset (bytes.Buffer): R4's other obligations
+		}
+		n++
+		w := an.FindPath(an.PathQuery{Fn: reset, Target: isReturn, Stop: func(in ssa.Instruction) bool {
+			s, ok := in.(*ssa.Store)
+			return ok && an.FieldVar(s.Addr) == fv
+		}, PruneEdge: func(b *ssa.BasicBlock, si int) bool {
+			// an edge on which the field is known to hold its zero value already
+			ifi, ok := b.Instrs[len(b.Instrs)-1].(*ssa.If)
+			if !ok {
+				return false
+			}
+			for _, a := range an.CondAtoms(ifi.Cond, si == 0) {
+				if a.Op == "==" && (a.R == "nil" || a.R == "0" || a.R == "false") && strings.HasSuffix(a.L, "."+fv.Name()) {
+					return true
+				}
+			}
+			return false
+		}})
+		key := "BodyBuffer.Reset rewrites " + fv.Name() + " (written by " + writers[0] + ")"
+		if w == nil {
+			c.Ok(rule, key, reset.Pos(), "stored on every path of Reset")
+		} else {
+			c.Bad(rule, key, w.Target.Pos(), "BodyBuffer."+fv.Name()+" is written while a body is buffered ("+strings.Join(writers, ", ")+") but some path of Reset leaves it as it is: the value follows the pooled transaction into the next request", c.P.TrailString(w)...)
+		}
+	}
+	c.MinCount(rule, "BodyBuffer fields written outside the constructor", n, 2)
 }
